@@ -68,12 +68,6 @@ theorem cnt_setRemove (l ex : List Nat) (c : Nat) : cnt (setRemove l c) ex ≤ c
   rw [setRemove_filter]
   exact setRemove_length_le _ _
 
-theorem cnt_append_single (l ex : List Nat) (c : Nat) :
-    cnt (l ++ [c]) ex = cnt l ex + (if ex.contains c then 0 else 1) := by
-  unfold cnt
-  rw [List.filter_append, List.length_append]
-  cases ex.contains c <;> simp
-
 theorem cnt_ex_cons (l ex : List Nat) (c : Nat) : cnt l (c :: ex) ≤ cnt l ex := by
   unfold cnt
   apply filter_length_mono
@@ -126,5 +120,392 @@ theorem J_bump {s s' : State} {g : GL} {t : Bool} (h : J s g t)
   · intro c hc
     simp only [poIds, piIds, hpo, hpi]
     exact ⟨Nat.lt_of_lt_of_le (x.ge c hc).1 hn, (x.ge c hc).2⟩
+
+/-- `J` sees the Swarm state only through four components -/
+theorem J_congr {s s' : State} {g : GL} {t : Bool} (h : J s g t) (hn : s'.nextId = s.nextId)
+    (hpo : s'.pendOut = s.pendOut) (hpi : s'.pendIn = s.pendIn) (he : s'.est = s.est) : J s' g t :=
+  J_bump h (Nat.le_of_eq hn.symm) hpo hpi he
+
+theorem J_fresh {s : State} {g : GL} {t : Bool} (h : J s g t) :
+    s.nextId ∉ g.lim.pendIn ∧ s.nextId ∉ g.lim.pendOut ∧ s.nextId ∉ g.exDial ∧
+    s.nextId ∉ poIds s ∧ s.nextId ∉ piIds s ∧ s.nextId ∉ eIds s := by
+  obtain ⟨w, x, _⟩ := h
+  have h4 : s.nextId ∉ poIds s := fun hm => Nat.lt_irrefl _ (w.fpo _ hm)
+  refine ⟨?_, ?_, ?_, h4, ?_, ?_⟩
+  · rw [x.pi]; intro hm; exact Nat.lt_irrefl _ (w.fpi _ hm)
+  · rw [x.po]; intro hm; exact h4 (List.mem_filter.1 hm).1
+  · intro hm; exact Nat.lt_irrefl _ (x.gd _ hm)
+  · intro hm; exact Nat.lt_irrefl _ (w.fpi _ hm)
+  · intro hm; exact Nat.lt_irrefl _ (w.fe _ hm)
+
+/-- a new pending incoming connection, recorded by the behaviour -/
+theorem J_piAdd {s : State} {g : GL} {t : Bool} (h : J s g t) (k : Nat)
+    (hl : t = false → checkLimit g.lim.limits.maxPI g.lim.pendIn.length = false) :
+    J { s with pendIn := s.pendIn ++ [{ id := s.nextId, k }], nextId := s.nextId + 1 }
+      { g with lim := { g.lim with pendIn := g.lim.pendIn ++ [s.nextId] } } t := by
+  obtain ⟨w, x, l⟩ := h
+  refine ⟨⟨?_, ?_, ?_, w.nde, w.dpe, ?_, ?_⟩, ⟨?_, x.po, x.ei, x.eo, x.pp, ?_, ?_⟩, ?_⟩
+  · intro c hc; exact Nat.lt_succ_of_lt (w.fpo c hc)
+  · intro c hc
+    simp only [piIds, List.map_append, List.map_cons, List.map_nil, List.mem_append, List.mem_singleton] at hc
+    rcases hc with hc | rfl
+    · exact Nat.lt_succ_of_lt (w.fpi c hc)
+    · exact Nat.lt_succ_self _
+  · intro c hc; exact Nat.lt_succ_of_lt (w.fe c hc)
+  · intro c hc
+    simp only [piIds, List.map_append, List.map_cons, List.map_nil, List.mem_append, List.mem_singleton] at hc
+    rcases hc with hc | rfl
+    · exact w.die c hc
+    · intro hm; exact Nat.lt_irrefl _ (w.fe _ hm)
+  · intro c hc
+    simp only [piIds, List.map_append, List.map_cons, List.map_nil, List.mem_append, List.mem_singleton, not_or]
+    exact ⟨w.dpi c hc, fun e => Nat.lt_irrefl _ (e ▸ w.fpo c hc)⟩
+  · simp [piIds, x.pi]
+  · intro c hc; exact Nat.lt_succ_of_lt (x.gd c hc)
+  · intro c hc
+    refine ⟨Nat.lt_succ_of_lt (x.ge c hc).1, (x.ge c hc).2.1, ?_⟩
+    simp only [piIds, List.map_append, List.map_cons, List.map_nil, List.mem_append, List.mem_singleton, not_or]
+    exact ⟨(x.ge c hc).2.2, fun e => Nat.lt_irrefl _ (e ▸ (x.ge c hc).1)⟩
+  · intro ht
+    have l := l ht
+    refine ⟨?_, l.po, l.ei, l.eo, l.pp, l.tot⟩
+    intro m hm
+    have := checkLimit_false _ _ (hl ht) m hm
+    simp only [List.length_append, List.length_singleton]
+    omega
+
+theorem mem_filter_ids {α : Type} (l : List α) (f : α → Nat) (q : α → Bool) (c : Nat)
+    (h : c ∈ (l.filter q).map f) : c ∈ l.map f := by
+  obtain ⟨a, ha, rfl⟩ := List.mem_map.1 h
+  exact List.mem_map_of_mem (List.mem_filter.1 ha).1
+
+/-- a pending incoming connection goes away (or `c` was not pending: nothing changes) -/
+theorem J_piRemove {s : State} {g : GL} {t : Bool} (h : J s g t) (c : Nat) :
+    J { s with pendIn := s.pendIn.filter (·.id != c) }
+      { g with lim := { g.lim with pendIn := setRemove g.lim.pendIn c } } t := by
+  obtain ⟨w, x, l⟩ := h
+  refine ⟨⟨w.fpo, ?_, w.fe, w.nde, w.dpe, ?_, ?_⟩, ⟨?_, x.po, x.ei, x.eo, x.pp, x.gd, ?_⟩, ?_⟩
+  · intro a ha; exact w.fpi a (mem_filter_ids _ _ _ _ ha)
+  · intro a ha; exact w.die a (mem_filter_ids _ _ _ _ ha)
+  · intro a ha hm; exact w.dpi a ha (mem_filter_ids _ _ _ _ hm)
+  · show setRemove g.lim.pendIn c = _
+    rw [x.pi]; exact setRemove_map _ _ _
+  · intro a ha
+    exact ⟨(x.ge a ha).1, (x.ge a ha).2.1, fun hm => (x.ge a ha).2.2 (mem_filter_ids _ _ _ _ hm)⟩
+  · intro ht
+    have l := l ht
+    refine ⟨?_, l.po, l.ei, l.eo, l.pp, l.tot⟩
+    intro m hm
+    exact Nat.le_trans (setRemove_length_le _ _) (l.pi m hm)
+
+/-- a new pending outgoing connection: counted by the behaviour, or exempt (bypassed peer) -/
+theorem J_poAdd {s : State} {g : GL} {t : Bool} (h : J s g t) (peer : Option Nat) (inflight : List (Nat × Maddr))
+    (errors : List (Maddr × Bool)) (exempt : Bool)
+    (hl : t = false → exempt = false → checkLimit g.lim.limits.maxPO g.lim.pendOut.length = false) :
+    J { s with pendOut := s.pendOut ++ [{ id := s.nextId, peer, inflight, errors }], nextId := s.nextId + 1 }
+      (if exempt then { g with exDial := s.nextId :: g.exDial }
+       else { g with lim := { g.lim with pendOut := g.lim.pendOut ++ [s.nextId] } }) t := by
+  have hf := J_fresh h
+  obtain ⟨w, x, l⟩ := h
+  have hw : W { s with pendOut := s.pendOut ++ [{ id := s.nextId, peer, inflight, errors }], nextId := s.nextId + 1 } := by
+    refine ⟨?_, ?_, ?_, w.nde, ?_, w.die, ?_⟩
+    · intro c hc
+      simp only [poIds, List.map_append, List.map_cons, List.map_nil, List.mem_append, List.mem_singleton] at hc
+      rcases hc with hc | rfl
+      · exact Nat.lt_succ_of_lt (w.fpo c hc)
+      · exact Nat.lt_succ_self _
+    · intro c hc; exact Nat.lt_succ_of_lt (w.fpi c hc)
+    · intro c hc; exact Nat.lt_succ_of_lt (w.fe c hc)
+    · intro c hc
+      simp only [poIds, List.map_append, List.map_cons, List.map_nil, List.mem_append, List.mem_singleton] at hc
+      rcases hc with hc | rfl
+      · exact w.dpe c hc
+      · exact hf.2.2.2.2.2
+    · intro c hc
+      simp only [poIds, List.map_append, List.map_cons, List.map_nil, List.mem_append, List.mem_singleton] at hc
+      rcases hc with hc | rfl
+      · exact w.dpi c hc
+      · exact hf.2.2.2.2.1
+  have hge : ∀ c ∈ g.exEst, c < s.nextId + 1 ∧
+      c ∉ poIds { s with pendOut := s.pendOut ++ [{ id := s.nextId, peer, inflight, errors }], nextId := s.nextId + 1 } ∧
+      c ∉ piIds s := by
+    intro c hc
+    refine ⟨Nat.lt_succ_of_lt (x.ge c hc).1, ?_, (x.ge c hc).2.2⟩
+    simp only [poIds, List.map_append, List.map_cons, List.map_nil, List.mem_append, List.mem_singleton, not_or]
+    exact ⟨(x.ge c hc).2.1, fun e => Nat.lt_irrefl _ (e ▸ (x.ge c hc).1)⟩
+  cases exempt with
+  | true =>
+    refine ⟨hw, ⟨x.pi, ?_, x.ei, x.eo, x.pp, ?_, hge⟩, ?_⟩
+    · show g.lim.pendOut = _
+      simp only [poIds, List.map_append, List.map_cons, List.map_nil, List.filter_append, List.filter_cons,
+        List.contains_cons, beq_self_eq_true, Bool.true_or, Bool.not_true, Bool.false_eq_true, ↓reduceIte,
+        List.filter_nil, List.append_nil]
+      rw [x.po]
+      apply List.filter_congr
+      intro c hc
+      have : c ≠ s.nextId := fun e => Nat.lt_irrefl _ (e ▸ w.fpo c hc)
+      simp [this]
+    · intro c hc
+      simp only [↓reduceIte, List.mem_cons] at hc
+      rcases hc with rfl | hc
+      · exact Nat.lt_succ_self _
+      · exact Nat.lt_succ_of_lt (x.gd c hc)
+    · intro ht; have l := l ht; exact ⟨l.pi, l.po, l.ei, l.eo, l.pp, l.tot⟩
+  | false =>
+    refine ⟨hw, ⟨x.pi, ?_, x.ei, x.eo, x.pp, ?_, hge⟩, ?_⟩
+    · show g.lim.pendOut ++ [s.nextId] = _
+      have hnc : g.exDial.contains s.nextId = false := by
+        cases hc : g.exDial.contains s.nextId with
+        | false => rfl
+        | true => exact absurd (List.contains_iff_mem.1 hc) hf.2.2.1
+      simp only [poIds, List.map_append, List.map_cons, List.map_nil, List.filter_append, List.filter_cons,
+        Bool.false_eq_true, ↓reduceIte, hnc, Bool.not_false, List.filter_nil]
+      rw [x.po]; rfl
+    · intro c hc; exact Nat.lt_succ_of_lt (x.gd c hc)
+    · intro ht
+      have l := l ht
+      refine ⟨l.pi, ?_, l.ei, l.eo, l.pp, l.tot⟩
+      intro m hm
+      have := checkLimit_false _ _ (hl ht rfl) m hm
+      show (g.lim.pendOut ++ [s.nextId]).length ≤ m
+      simp only [List.length_append, List.length_singleton]
+      omega
+
+/-- a pending outgoing connection goes away (or `c` was not pending) -/
+theorem J_poRemove {s : State} {g : GL} {t : Bool} (h : J s g t) (c : Nat) (cpo : Nat) :
+    J { s with pendOut := s.pendOut.filter (·.id != c), cPO := cpo }
+      { g with lim := { g.lim with pendOut := setRemove g.lim.pendOut c } } t := by
+  obtain ⟨w, x, l⟩ := h
+  refine ⟨⟨?_, w.fpi, w.fe, w.nde, ?_, w.die, ?_⟩, ⟨x.pi, ?_, x.ei, x.eo, x.pp, x.gd, ?_⟩, ?_⟩
+  · intro a ha; exact w.fpo a (mem_filter_ids _ _ _ _ ha)
+  · intro a ha; exact w.dpe a (mem_filter_ids _ _ _ _ ha)
+  · intro a ha; exact w.dpi a (mem_filter_ids _ _ _ _ ha)
+  · show setRemove g.lim.pendOut c = _
+    rw [x.po, ← setRemove_filter]
+    congr 1
+    exact setRemove_map _ _ _
+  · intro a ha
+    exact ⟨(x.ge a ha).1, fun hm => (x.ge a ha).2.1 (mem_filter_ids _ _ _ _ hm), (x.ge a ha).2.2⟩
+  · intro ht
+    have l := l ht
+    refine ⟨l.pi, ?_, l.ei, l.eo, l.pp, l.tot⟩
+    intro m hm
+    exact Nat.le_trans (setRemove_length_le _ _) (l.po m hm)
+
+/-- the pending dial's bookkeeping is updated, ids unchanged -/
+theorem J_poUpdate {s : State} {g : GL} {t : Bool} (h : J s g t) (f : PendingOut → PendingOut)
+    (hf : ∀ q, (f q).id = q.id) : J { s with pendOut := s.pendOut.map f } g t := by
+  have : (s.pendOut.map f).map (·.id) = s.pendOut.map (·.id) := by
+    rw [List.map_map]; apply List.map_congr_left; intro a _; exact hf a
+  obtain ⟨w, x, l⟩ := h
+  refine ⟨⟨?_, w.fpi, w.fe, w.nde, ?_, w.die, ?_⟩, ⟨x.pi, ?_, x.ei, x.eo, x.pp, x.gd, ?_⟩, l⟩
+  · simp only [poIds, this]; exact w.fpo
+  · simp only [poIds, this]; exact w.dpe
+  · simp only [poIds, this]; exact w.dpi
+  · simp only [poIds, this]; exact x.po
+  · simp only [poIds, this]; exact x.ge
+
+theorem estChecks_false {b : Lim} {out : Bool} {p : Nat} (h : estChecks b out p = false) :
+    checkLimit (if out then b.limits.maxEO else b.limits.maxEI) (if out then b.estOut.length else b.estIn.length) = false ∧
+    checkLimit b.limits.maxPP (ppGet b.perPeer p).length = false ∧
+    checkLimit b.limits.maxTot (b.estIn.length + b.estOut.length) = false := by
+  simpa [estChecks, Bool.or_eq_false_iff, and_assoc] using h
+
+theorem contains_false_of_not_mem {l : List Nat} {c : Nat} (h : c ∉ l) : l.contains c = false := by
+  cases hc : l.contains c with
+  | false => rfl
+  | true => exact absurd (List.contains_iff_mem.1 hc) h
+
+/-- a connection (whose id is in no table) becomes established; `exempt` = its peer is bypassed.
+`pp'` = any per-peer map that reads as the old one with `c` added to `p`'s set. -/
+theorem J_est {s : State} {g : GL} {t : Bool} (h : J s g t) (c p : Nat) (out md : Bool) (mk : Nat)
+    (hlt : c < s.nextId) (hpo : c ∉ poIds s) (hpi : c ∉ piIds s) (hne : c ∉ eIds s) (exempt : Bool)
+    (hl : t = false → exempt = false → estChecks g.lim out p = false) (pp' : PP)
+    (hpp : ∀ q, ppGet pp' q = if q = p then ppGet g.lim.perPeer p ++ [c] else ppGet g.lim.perPeer q) :
+    J { s with est := s.est ++ [{ id := c, peer := p, out, muxDial := md, muxK := mk }] }
+      { g with lim := { g.lim with estOut := if out then g.lim.estOut ++ [c] else g.lim.estOut,
+                                   estIn := if out then g.lim.estIn else g.lim.estIn ++ [c],
+                                   perPeer := pp' },
+               exEst := if exempt then c :: g.exEst else g.exEst } t := by
+  obtain ⟨w, x, l⟩ := h
+  refine ⟨⟨w.fpo, w.fpi, ?_, ?_, ?_, ?_, w.dpi⟩, ⟨x.pi, x.po, ?_, ?_, ?_, x.gd, ?_⟩, ?_⟩
+  · intro a ha
+    simp only [eIds, List.map_append, List.map_cons, List.map_nil, List.mem_append, List.mem_singleton] at ha
+    rcases ha with ha | rfl
+    · exact w.fe a ha
+    · exact hlt
+  · simp only [eIds, List.map_append, List.map_cons, List.map_nil]
+    apply List.nodup_append.2
+    refine ⟨w.nde, by simp, ?_⟩
+    intro a ha b hb
+    simp only [List.mem_singleton] at hb
+    subst hb
+    intro e; subst e; exact hne ha
+  · intro a ha
+    simp only [eIds, List.map_append, List.map_cons, List.map_nil, List.mem_append, List.mem_singleton, not_or]
+    exact ⟨w.dpe a ha, fun e => hpo (e ▸ ha)⟩
+  · intro a ha
+    simp only [eIds, List.map_append, List.map_cons, List.map_nil, List.mem_append, List.mem_singleton, not_or]
+    exact ⟨w.die a ha, fun e => hpi (e ▸ ha)⟩
+  · show (if out then g.lim.estIn else g.lim.estIn ++ [c]) = _
+    cases out <;> simp [x.ei, List.filter_append]
+  · show (if out then g.lim.estOut ++ [c] else g.lim.estOut) = _
+    cases out <;> simp [x.eo, List.filter_append]
+  · intro q
+    show ppGet pp' q = _
+    rw [hpp]
+    by_cases hq : q = p
+    · subst hq; simp [x.pp, List.filter_append]
+    · have : (p == q) = false := by simpa using fun e : p = q => hq e.symm
+      simp [hq, x.pp, List.filter_append, this]
+  · intro a ha
+    cases exempt with
+    | false => exact x.ge a ha
+    | true =>
+      simp only [↓reduceIte, List.mem_cons] at ha
+      rcases ha with rfl | ha
+      · exact ⟨hlt, hpo, hpi⟩
+      · exact x.ge a ha
+  · intro ht
+    have l := l ht
+    cases exempt with
+    | true =>
+      -- exempt: the new id is not counted, and no old id becomes counted
+      refine ⟨l.pi, l.po, ?_, ?_, ?_, ?_⟩
+      · intro m hm
+        show cnt (if out then g.lim.estIn else g.lim.estIn ++ [c]) (c :: g.exEst) ≤ m
+        cases out
+        · exact Nat.le_trans (cnt_append_exempt _ _ _) (l.ei m hm)
+        · exact Nat.le_trans (cnt_ex_cons _ _ _) (l.ei m hm)
+      · intro m hm
+        show cnt (if out then g.lim.estOut ++ [c] else g.lim.estOut) (c :: g.exEst) ≤ m
+        cases out
+        · exact Nat.le_trans (cnt_ex_cons _ _ _) (l.eo m hm)
+        · exact Nat.le_trans (cnt_append_exempt _ _ _) (l.eo m hm)
+      · intro m q hm
+        show cnt (ppGet pp' q) (c :: g.exEst) ≤ m
+        rw [hpp]
+        by_cases hq : q = p
+        · simp only [hq, ↓reduceIte]
+          exact Nat.le_trans (cnt_append_exempt _ _ _) (l.pp m p hm)
+        · simp only [hq, ↓reduceIte]
+          exact Nat.le_trans (cnt_ex_cons _ _ _) (l.pp m q hm)
+      · intro m hm
+        show cnt (if out then g.lim.estIn else g.lim.estIn ++ [c]) (c :: g.exEst) +
+          cnt (if out then g.lim.estOut ++ [c] else g.lim.estOut) (c :: g.exEst) ≤ m
+        have h0 := l.tot m hm
+        cases out
+        · have h1 := cnt_append_exempt g.lim.estIn g.exEst c
+          have h2 := cnt_ex_cons g.lim.estOut g.exEst c
+          simp only [Bool.false_eq_true, ↓reduceIte]; omega
+        · have h1 := cnt_ex_cons g.lim.estIn g.exEst c
+          have h2 := cnt_append_exempt g.lim.estOut g.exEst c
+          simp only [↓reduceIte]; omega
+    | false =>
+      obtain ⟨c1, c2, c3⟩ := estChecks_false (hl ht rfl)
+      refine ⟨l.pi, l.po, ?_, ?_, ?_, ?_⟩
+      · intro m hm
+        show cnt (if out then g.lim.estIn else g.lim.estIn ++ [c]) g.exEst ≤ m
+        cases out
+        · have := checkLimit_false _ _ c1 m (by simpa using hm)
+          have h1 := cnt_append_single' g.lim.estIn g.exEst c
+          have h2 := cnt_le g.lim.estIn g.exEst
+          simp only [Bool.false_eq_true, ↓reduceIte] at this ⊢; omega
+        · exact l.ei m hm
+      · intro m hm
+        show cnt (if out then g.lim.estOut ++ [c] else g.lim.estOut) g.exEst ≤ m
+        cases out
+        · exact l.eo m hm
+        · have := checkLimit_false _ _ c1 m (by simpa using hm)
+          have h1 := cnt_append_single' g.lim.estOut g.exEst c
+          have h2 := cnt_le g.lim.estOut g.exEst
+          simp only [↓reduceIte] at this ⊢; omega
+      · intro m q hm
+        show cnt (ppGet pp' q) g.exEst ≤ m
+        rw [hpp]
+        by_cases hq : q = p
+        · simp only [hq, ↓reduceIte]
+          have := checkLimit_false _ _ c2 m hm
+          have h1 := cnt_append_single' (ppGet g.lim.perPeer p) g.exEst c
+          have h2 := cnt_le (ppGet g.lim.perPeer p) g.exEst
+          omega
+        · simp only [hq, ↓reduceIte]; exact l.pp m q hm
+      · intro m hm
+        show cnt (if out then g.lim.estIn else g.lim.estIn ++ [c]) g.exEst +
+          cnt (if out then g.lim.estOut ++ [c] else g.lim.estOut) g.exEst ≤ m
+        have := checkLimit_false _ _ c3 m hm
+        have h2 := cnt_le g.lim.estIn g.exEst
+        have h3 := cnt_le g.lim.estOut g.exEst
+        cases out
+        · have h1 := cnt_append_single' g.lim.estIn g.exEst c
+          simp only [Bool.false_eq_true, ↓reduceIte]; omega
+        · have h1 := cnt_append_single' g.lim.estOut g.exEst c
+          simp only [↓reduceIte]; omega
+
+theorem eq_of_id_eq {l : List Est} (hn : (l.map (·.id)).Nodup) {a b : Est} (ha : a ∈ l) (hb : b ∈ l)
+    (h : a.id = b.id) : a = b := by
+  induction l with
+  | nil => cases ha
+  | cons x t ih =>
+    simp only [List.map_cons, List.nodup_cons] at hn
+    rcases List.mem_cons.1 ha with rfl | ha' <;> rcases List.mem_cons.1 hb with rfl | hb'
+    · rfl
+    · exact absurd (h ▸ List.mem_map_of_mem hb') hn.1
+    · exact absurd (h ▸ List.mem_map_of_mem ha') hn.1
+    · exact ih hn.2 ha' hb'
+
+/-- an established connection is closed -/
+theorem J_close {s : State} {g : GL} {t : Bool} (h : J s g t) (c : Nat) (e : Est) (he : e ∈ s.est) (hid : e.id = c)
+    (cei ceo : Nat) :
+    J { s with est := s.est.filter (·.id != c), cEO := ceo, cEI := cei }
+      { g with lim := { g.lim with estIn := setRemove g.lim.estIn c, estOut := setRemove g.lim.estOut c,
+                                   perPeer := ppUpd g.lim.perPeer e.peer (setRemove · c) } } t := by
+  obtain ⟨w, x, l⟩ := h
+  refine ⟨⟨w.fpo, w.fpi, ?_, ?_, ?_, ?_, w.dpi⟩, ⟨x.pi, x.po, ?_, ?_, ?_, x.gd, x.ge⟩, ?_⟩
+  · intro a ha; exact w.fe a (mem_filter_ids _ _ _ _ ha)
+  · exact List.Nodup.sublist (List.Sublist.map _ (List.filter_sublist)) w.nde
+  · intro a ha hm; exact w.dpe a ha (mem_filter_ids _ _ _ _ hm)
+  · intro a ha hm; exact w.die a ha (mem_filter_ids _ _ _ _ hm)
+  · show setRemove g.lim.estIn c = _
+    rw [x.ei, setRemove_map, List.filter_filter, List.filter_filter]
+    congr 1; apply List.filter_congr; intro a _; exact Bool.and_comm _ _
+  · show setRemove g.lim.estOut c = _
+    rw [x.eo, setRemove_map, List.filter_filter, List.filter_filter]
+    congr 1; apply List.filter_congr; intro a _; exact Bool.and_comm _ _
+  · intro q
+    show ppGet (ppUpd g.lim.perPeer e.peer (setRemove · c)) q = _
+    rw [ppGet_ppUpd]
+    by_cases hq : q = e.peer
+    · simp only [hq, ↓reduceIte]
+      rw [x.pp, setRemove_map, List.filter_filter, List.filter_filter]
+      congr 1; apply List.filter_congr; intro a _; exact Bool.and_comm _ _
+    · simp only [hq, ↓reduceIte]
+      rw [x.pp, List.filter_filter]
+      congr 1; apply List.filter_congr
+      intro a ha
+      by_cases hac : a.id = c
+      · have : a = e := eq_of_id_eq w.nde ha he (hac.trans hid.symm)
+        subst this
+        have : (a.peer == q) = false := by simpa using fun e' : a.peer = q => hq e'.symm
+        simp [this]
+      · have : (a.id != c) = true := by simpa [bne_iff_ne] using hac
+        simp [this]
+  · intro ht
+    have l := l ht
+    refine ⟨l.pi, l.po, ?_, ?_, ?_, ?_⟩
+    · intro m hm; exact Nat.le_trans (cnt_setRemove _ _ _) (l.ei m hm)
+    · intro m hm; exact Nat.le_trans (cnt_setRemove _ _ _) (l.eo m hm)
+    · intro m q hm
+      show cnt (ppGet (ppUpd g.lim.perPeer e.peer (setRemove · c)) q) g.exEst ≤ m
+      rw [ppGet_ppUpd]
+      by_cases hq : q = e.peer
+      · simp only [hq, ↓reduceIte]; exact Nat.le_trans (cnt_setRemove _ _ _) (l.pp m _ hm)
+      · simp only [hq, ↓reduceIte]; exact l.pp m q hm
+    · intro m hm
+      have h1 := cnt_setRemove g.lim.estIn g.exEst c
+      have h2 := cnt_setRemove g.lim.estOut g.exEst c
+      have := l.tot m hm
+      show cnt (setRemove g.lim.estIn c) g.exEst + cnt (setRemove g.lim.estOut c) g.exEst ≤ m
+      omega
 
 end C52
